@@ -80,10 +80,13 @@ Definition run_nosource : jv :=
 Definition run_net_hist (legacy sp : bool) (hist : list (bool * list knic)) : jv :=
   let cs := map (fun pl => (fst pl, k_netdev sp (snd pl))) hist in
   let rows := map (fun pl => map nic_row (snd pl)) hist in
-  let ok := forallb (fun pl => printable_nics (snd pl)) hist && steady_consec [] rows in
+  let ok := forallb (fun pl => printable_nics (snd pl)) hist in
   JL [ JL (map (fun c => JB (snd c)) cs);
        JL (map (jv_xout jv_front) (net_polls legacy wc_init cs));
-       (if ok then JL (map (fun pl => JC "Val" [jv_front (spec_net (fst pl) (snd pl))]) hist) else jnone);
+       (* the demand: each poll's kernel counters plus the offsets of restarts seen while the device stayed listed *)
+       (if ok then JL (map (fun pr => JC "Val" [jv_front (answer_of_rows nic_names (fst (fst pr)) (snd pr))])
+                           (combine hist (spec_wrap_hist [] [] rows)))
+        else jnone);
        jbool (forallb (fun pl => wf_nics (snd pl)) hist && steady_consec [] rows) ].
 
 Definition run_disk_hist (hist : list (bool * (list kdisk * list bytes))) : jv :=
@@ -93,16 +96,16 @@ Definition run_disk_hist (hist : list (bool * (list kdisk * list bytes))) : jv :
                       (fst p, listing, l)) hist in
   let rows := map (fun q : bool * list bytes * list kdisk => match q with (per, listing, l) =>
                      map disk_row (if per then l else filter (listed (in_listing listing)) l) end) polls in
-  let ok := forallb (fun q : bool * list bytes * list kdisk => match q with (_, _, l) => wf_disks l && no_l24 l end) polls && steady_consec [] rows in
+  let ok := forallb (fun q : bool * list bytes * list kdisk => match q with (_, _, l) => wf_disks l && no_l24 l end) polls in
   JL [ JL (map (fun q : bool * list bytes * list kdisk => match q with (_, _, l) => JB (k_diskstats l) end) polls);
        JL (map (fun q : bool * list bytes * list kdisk => match q with (_, listing, _) => JL (map JB listing) end) polls);
        JL (map (jv_outcome jv_front)
                (disk_polls wc_init (map (fun q : bool * list bytes * list kdisk => match q with (per, listing, l) =>
                                                    (per, in_listing listing, ProcDiskstats (k_diskstats l)) end) polls)));
-       (if ok then JL (map (fun q : bool * list bytes * list kdisk => match q with (per, listing, l) =>
-                                       JC "Val" [jv_front (spec_disks (in_listing listing) per l)] end) polls)
+       (if ok then JL (map (fun pr => JC "Val" [jv_front (answer_of_rows disk_names (fst (fst (fst pr))) (snd pr))])
+                           (combine polls (spec_wrap_hist [] [] rows)))
         else jnone);
-       jbool ok ].
+       jbool (ok && steady_consec [] rows) ].
 
 (* disk_usage: _asdict() items with the field names found in the code *)
 Definition jv_usage (u : usage) : jv :=
